@@ -19,11 +19,13 @@ from sexp import Sym
 
 from props import _dfrows_util as U
 
+U.warm()
+
 PROP = "C37"
 READY = True
 DRIVER = "dm_dfrows"
 LEAN_MODULES = ["DaskModel.Props.C37"]
-CASE_TIMEOUT_S = 20
+CASE_TIMEOUT_S = 60
 LEVEL_TEXT = (
     "Proved in Lean: split_every_irrelevant — for chunk/combine/aggregate that factor through a monoid homomorphism the "
     "lowered ApplyConcatApply -> TreeReduce(Chunk) (toolz.partition_all batches, the while-loop of TreeReduce._layer with a "
